@@ -56,3 +56,21 @@ Theorem C14_after_prefix : forall puf allow s a b ra rb,
   parse_bytes puf allow s (a ++ b) = Some (ra ++ rb).
 Proof. exact parse_bytes_concat. Qed.
 Print Assumptions C14_after_prefix.
+
+From Coq Require Import Lia.
+
+(* non-vacuity: the crate's V5 test vector cut one byte short meets the hypotheses of C14_v5 and
+   is one Error carrying the truncated packet; preceded by a complete packet, that packet is
+   still reported and the Error carries only the truncated one *)
+Example C14_example :
+  let x := [x00; x05; x00; x01; x03; x00; x04; x00; x05; x00; x06; x07; x08; x09; x00; x01; x02; x03; x04; x05; x06; x07; x08; x09; x00; x01; x02; x03; x04; x05; x06; x07; x08; x09; x00; x01; x02; x03; x04; x05; x06; x07; x08; x09; x00; x01; x02; x03; x04; x05; x06; x07; x08; x09; x00; x01; x02; x03; x04; x05; x06; x07; x08; x09; x00; x01; x02; x03; x04; x05; x06; x07] in
+  let cutx := removelast x in
+  allow_list default_allowed 5 = true /\ firstn 2 cutx = enc 2 5
+  /\ (length cutx < 24 + N.to_nat (be (slice cutx 2 2)) * 48)%nat
+  /\ (match parse_bytes true (allow_list default_allowed) empty_state cutx with
+      | Some [(PErr (NPartial 5 _ _) rem, s)] => rem = cutx /\ s = empty_state
+      | _ => False end)
+  /\ (match parse_bytes true (allow_list default_allowed) empty_state (x ++ cutx) with
+      | Some [(PV5 _, _); (PErr (NPartial 5 _ _) rem, _)] => rem = cutx
+      | _ => False end).
+Proof. vm_compute. repeat split; try reflexivity; lia. Qed.
